@@ -227,7 +227,8 @@ def _translated_obligations(res, pmod):
     if rc != 0:
         errs = [l for l in out.splitlines() if "error" in l][:8]
         res["problems"].append("translated definitions no longer provably equal the model:\n%s" % "\n".join(errs or [out[-1500:]]))
-        return
+        # the theorems that still elaborate are still discharged; a theorem whose proof failed is reported by Lean as
+        # depending on sorryAx (not an allowed axiom), one without a report (the file stopped before it) as a problem
     _count_axioms(res, names, out)
 
 
@@ -631,6 +632,7 @@ def run_check(pid, tier, seed, replay=None):
                 "correspondence harness (harness/lib.py, harness/props/%s.py) and the Lean driver's parser/printer" % pid.lower()],
             "theorems": po["axioms"],
             "proof_problems": po["problems"],
+            "translator_tie": po.get("translated", "none for this property: the model is tied by correspondence only"),
             "evaluations": len(cases),
             "protocol_lines_compared": len(lines),
             "correspondence_disagreements": len(disagreements),
